@@ -12,6 +12,11 @@
 // Thread::start is driven in both public forms: start(proc, param) for even child ids, the member-function template
 // start(obj, &X::method) (Thread.hpp: Call<uint>::Member<X>::Func0 stored in Thread::func, thread routine proc<Func0>)
 // for odd child ids; both reach the same pthread_create, so the model does not distinguish them.
+// The value a thread function returns is given by the case (`r <t> <v>`, 0 <= v < 2^32; default 100 + t), the initial
+// semaphore count by the case head (up to 2^31 - 1).
+// Deadline probe lines `dl <cls> <sec> <nsec>`: the abstime the timed wait handed to its primitive; when the primitive
+// measures it against another clock than CLOCK_REALTIME (attribute of the condition variable, clock* call) and the pair is
+// valid, it is converted to the CLOCK_REALTIME instant at which that clock reaches it and ` clk=<id>` is appended.
 #include "vh.hpp"
 #include <stdint.h>
 #define private public
@@ -34,6 +39,7 @@ struct Ctx { int tid; ScOp ops[64]; int nops; };
 static Ctx ctx[VS_MAXT];
 
 static int n_thr, cfg_sig0, cfg_auto; static long long cfg_sem0;
+static unsigned cfg_result[VS_MAXT];               // value thread t's function returns (op line `r <t> <v>`, default 100 + t)
 static bool started;
 static Signal* sig; static Monitor* mon; static Mutex* mtx; static Semaphore* sem; static Thread* th[VS_MAXT];
 static long long occ;
@@ -116,7 +122,7 @@ static unsigned scenario(void* arg)
     ev("r%d:%s:%lld", t, cs, v);
     vs_idle();
   }
-  unsigned res = 100u + (unsigned)t;
+  unsigned res = cfg_result[t];
   ev("X%d:%u", t, res);
   return res;
 }
@@ -203,15 +209,22 @@ static void drain()
 }
 
 // deadline arithmetic of the three timed waits, captured at the interposed *timedwait
-static void deadline_probe(long long s, long long ns, long long ms)
+static void dl_line(const char* cls)
 {
   long long a = 0, b = 0;
-  { Signal x; vs_capture(1, s, ns); x.wait((int64)ms); if(!vs_captured(&a, &b)) { a = -1; b = -1; } vs_capture(0, 0, 0); }
-  printf("%ld dl sig %lld %lld\n", cur_case, a, b);
-  { Monitor x; vs_capture(1, s, ns); x.lock(); x.wait((int64)ms); x.unlock(); if(!vs_captured(&a, &b)) { a = -1; b = -1; } vs_capture(0, 0, 0); }
-  printf("%ld dl mon %lld %lld\n", cur_case, a, b);
-  { Semaphore x(0); vs_capture(1, s, ns); x.wait((int64)ms); if(!vs_captured(&a, &b)) { a = -1; b = -1; } vs_capture(0, 0, 0); }
-  printf("%ld dl sem %lld %lld\n", cur_case, a, b);
+  if(!vs_captured(&a, &b)) { printf("%ld dl %s -1 -1\n", cur_case, cls); return; }
+  int clk = vs_captured_clock();
+  if(clk != 0 && b >= 0 && b < 1000000000LL) {       // another clock (= CLOCK_REALTIME / 3): the equivalent CLOCK_REALTIME instant
+    __int128 tot = ((__int128)a * 1000000000LL + b) * 3;
+    printf("%ld dl %s %lld %lld clk=%d\n", cur_case, cls, (long long)(tot / 1000000000LL), (long long)(tot % 1000000000LL), clk);
+  }
+  else printf("%ld dl %s %lld %lld\n", cur_case, cls, a, b);
+}
+static void deadline_probe(long long s, long long ns, long long ms)
+{
+  { Signal x; vs_capture(1, s, ns); x.wait((int64)ms); dl_line("sig"); vs_capture(0, 0, 0); }
+  { Monitor x; vs_capture(1, s, ns); x.lock(); x.wait((int64)ms); x.unlock(); dl_line("mon"); vs_capture(0, 0, 0); }
+  { Semaphore x(0); vs_capture(1, s, ns); x.wait((int64)ms); dl_line("sem"); vs_capture(0, 0, 0); }
 }
 
 static int find_op(const char* name)
@@ -230,7 +243,7 @@ static void on_begin(long c, vh::Tok& t)
   cfg_sem0 = t.n > 4 ? atoll(t.v[4]) : 0;
   cfg_auto = t.n > 5 ? atoi(t.v[5]) : 0;
   started = false;
-  for(int i = 0; i < VS_MAXT; ++i) { ctx[i].tid = i; ctx[i].nops = 0; }
+  for(int i = 0; i < VS_MAXT; ++i) { ctx[i].tid = i; ctx[i].nops = 0; cfg_result[i] = 100u + (unsigned)i; }
 }
 
 static void on_op(long c, long, vh::Tok& t)
@@ -248,6 +261,11 @@ static void on_op(long c, long, vh::Tok& t)
       if(kind < 0) continue;
       ctx[i].ops[ctx[i].nops].kind = kind; ctx[i].ops[ctx[i].nops].arg = arg; ++ctx[i].nops;
     }
+  }
+  else if(!strcmp(t.v[0], "r") && t.n == 3) {
+    if(started) { printf("%ld ?script-after-move\n", c); return; }
+    int i = atoi(t.v[1]);
+    if(i >= 0 && i < VS_MAXT) cfg_result[i] = (unsigned)strtoull(t.v[2], 0, 10);
   }
   else if(!strcmp(t.v[0], "m") && t.n == 3) do_move(t.v[1], atoll(t.v[2]));
   else if(!strcmp(t.v[0], "drain")) drain();
